@@ -210,7 +210,7 @@ H2 = 'exactpack.solvers.heat.hutchens2:Hutchens2'
 RECT = 'exactpack.solvers.heat.rectangle:Rectangle'
 
 
-@target('Hutchens1N3', ['heat'], deriv=['temperature'], second=[('temperature', 'r', 'r')],
+@target('Hutchens1N3', ['heat'], deriv=None,
         corr=dict(cls=H1, r=(0.0, 1.0), t=(0.01, 3.0),
                   params=dict(Nsum=3, k=(0.5, 2.0), cp=(0.5, 2.0), rho=(0.5, 2.0), b=(0.5, 2.0), Tb=(-3.0, 5.0), T0=(-3.0, 5.0)),
                   fix=lambda rng, p, pt, t: (p, [rng.choice([0.0, pt[0] * p['b'], pt[0] * p['b'], p['b']])], t)))
